@@ -1,10 +1,15 @@
-_connect = H("verifH_C18_connect", "connect() as one operation: dial result, CONNECT bytes vs reference, arbitrary 0..5-byte reply, resend, post-state", T({"cuts":0,"wfaults":1,"shapes":3}), T({"cuts":1,"wfaults":2,"shapes":4}, time_sec=3000, maxpaths=3000000), ("dial-failed","connect-write-failed","malformed","short","refused","badflags","resend-failed","online"))
+_CONNECT_REACH = ("dial-failed","connect-write-failed","malformed","short","refused","badflags","resend-failed","online")
+_connect = H("verifH_C18_connect", "connect() as one operation: dial result, CONNECT bytes vs reference, arbitrary 0..5-byte reply, resend, post-state", T({"cuts":0,"wfaults":1,"shapes":3}), T({"cuts":1,"wfaults":1,"shapes":3}, time_sec=1200, maxpaths=3000000), _CONNECT_REACH)
+_connect_t2 = H("verifH_C18_connect", "same, two write faults (thorough tier only)", {"skip":True}, T({"cuts":0,"wfaults":2,"shapes":3}, time_sec=1200, maxpaths=3000000), _CONNECT_REACH)
+_connect_t3 = H("verifH_C18_connect", "same, larger pending sets (thorough tier only)", {"skip":True}, T({"cuts":0,"wfaults":1,"shapes":4}, time_sec=1500, maxpaths=3000000), _CONNECT_REACH)
+_connect_light = H("verifH_C18_connect", "reconnect through the real connect(): CONNECT, arbitrary 4-byte reply, resend of the pending transfers in order and at the right stage, post-state (reduced configuration space)", {"params":{"cuts":0,"wfaults":1,"shapes":3,"light":1}}, {"params":{"cuts":0,"wfaults":2,"shapes":3,"light":1},"time_sec":1200}, ("malformed","refused","badflags","resend-failed","online"))
+_accept_light = H("verifH_C01_accept", "accept from an arbitrary INV state (at most one write fault)", {"params":{"W":1,"wfaults":1,"storefaults":1}}, {"params":{"W":2,"wfaults":1,"storefaults":1},"time_sec":1500}, ("refused-max","save-failed","enqueued-offline","written","write-broke"))
 _compose = H("verifH_C01_compose", "bounded composition from the real initial state (InitSession): k operations out of {publish QoS1/2, connection loss, real connect+resend, PUBACK, PUBREC, PUBCOMP}, optional restart (AdoptSession), then observe + drain against the shadow model", T({"steps":4}), T({"steps":6}, time_sec=3000, maxpaths=5000000), ("end","restarted"))
 S["C01"] = dict(title="Accepted QoS>=1 publishes are retransmitted until acknowledged, never lost", technique=TECH+"; one operation from an arbitrary representation-invariant state (ring position free), observed through resend", harnesses=[
     H("verifH_C01_accept", "L01.a accept: Save of the stamped packet, enqueue, first write or exactly one error; failure leaves no trace", T({"W":1,"wfaults":2,"storefaults":1}), T({"W":2,"wfaults":2,"storefaults":1}, time_sec=1500), ("refused-max","save-failed","enqueued-offline","written","write-broke")),
     H("verifH_C01_ack", "L01.c/L03.a PUBACK/PUBREC/PUBCOMP with arbitrary identifier", T({"W":2,"wfaults":1,"storefaults":1}), T({"W":3,"wfaults":2,"storefaults":1}, time_sec=1500), ("puback-applied","puback-delete-failed","puback-rejected","pubcomp-applied","pubcomp-delete-failed","pubcomp-rejected","pubrec-applied","pubrec-rejected","pubrec-save-failed","pubrec-write-failed")),
     H("verifH_C01_resend", "L01.b resend under write and Load faults", T({"W":2,"wfaults":2,"storefaults":1}), T({"W":3,"wfaults":2,"storefaults":1}, time_sec=1500), ("complete","failed")),
-    _compose, _connect,
+    _compose, _connect_light,
   ],
   assumptions=["pre-states are arbitrary states satisfying INV-out1/out2/seq of DESIGN 4.1 (counters < 2^62, ring position free); the induction over histories is a paper step",
     "Persistence operations fail without effect (documented contract); Load returns a private copy",
@@ -19,7 +24,7 @@ _outasm = ["pre-states are arbitrary states satisfying INV-out1/out2/seq of DESI
 S["C05"] = dict(title="Publishes and resends keep acceptance order; DUP marks only re-deliveries", technique=TECH+"; one/two operations from an arbitrary INV state, observed through resend", harnesses=[
     H("verifH_C05_concurrent", "bounded schedule exploration: two concurrent publishers on one level, <= k preemptions at channel operations: identifiers distinct, wire order = identifier order, whole packets only, tokens returned", T({"preempt":2,"wfaults":0}), T({"preempt":3,"wfaults":1}, time_sec=2400, maxpaths=3000000), ("both-written-in-order","end")),
     H("verifH_C05_order", "L05.a two consecutive accepts: stamps n, n+1, wire order = acceptance order, DUP per written flag", T({"W":1,"wfaults":1}), T({"W":2,"wfaults":2}, time_sec=1500)),
-    _accept, _resend, _ack, _connect],
+    _accept_light, _resend, _ack, _connect_light],
   assumptions=_outasm+["schedules: serialisation of publishers follows from the single-slot seqSem token held across stamp+Save+enqueue+first write (checked on every sequential path: the token is taken first and returned last); interleavings themselves are not enumerated"],
   bounds={"quick":"W<=2, 2 consecutive publishes, <= 2 faulty writes; 2 concurrent publishers with <= 2 preemptions","thorough":"W<=3; <= 3 preemptions and 1 write fault"},
   outside=["fairness between publishers","more than 2 concurrent publishers or more than 3 preemptions (beyond that: the token argument)"])
@@ -80,7 +85,7 @@ S["C16"] = dict(title="A damaged Persistence never bricks the session: adopt, wa
   bounds={"quick":"<= 2 records per run (<= 6 outbound), 1 damaged, 3 damage kinds, stray entries, ring positions and storage sequence numbers free","thorough":"2 damaged records"},
   outside=["more than 2 damaged records at once","damage to inbound markers (F11 covers the client-identifier record; the marker case shares its code path)"])
 S["C03"] = dict(title="Exactly-once publish: no PUBLISH after recorded PUBREC; PUBREL until PUBCOMP", technique=TECH+"; one-step lemmas from INV states plus a composition PUBREC -> reconnect -> restart -> PUBCOMP -> publish", harnesses=[
-    _accept, _connect,
+    _accept_light, _connect_light,
     H("verifH_C03_cycle", "PUBREC (with store/write faults) -> resend in the same process -> AdoptSession -> resend -> PUBCOMP -> new publish", T({"W":1,"wfaults":1,"storefaults":1}), T({"W":2,"wfaults":2,"storefaults":1}, time_sec=1500), ("recorded","not-recorded","completed")),
     _ack, _resend,
     H("verifH_C17_ring", "L03.c identifier not reused while fewer than 0x4000 in flight (all wrap positions)"),
@@ -98,7 +103,7 @@ S["C20"] = dict(title="mqtttest doubles flag every deviation and mimic the clien
   assumptions=["testing.TB is a counting double (Errorf/Error/Fatalf/Cleanup/Helper); Fatalf is modelled as a panic caught by the harness", "time.Sleep returns immediately in the model"],
   bounds={"quick":"<= 2 expectations, <= 2 calls, messages <= 1 byte, topics/filters 1 symbolic byte, <= 2 filters per call; scripts of <= 3 entries","thorough":"<= 3 calls"},
   outside=["longer expectation lists","real *testing.T behaviour (Goexit on Fatalf)"])
-S["C18"] = dict(title="Connection set-up: CONNECT first, clean session once, resend before new", technique=TECH, harnesses=[_connect,
+S["C18"] = dict(title="Connection set-up: CONNECT first, clean session once, resend before new", technique=TECH, harnesses=[_connect, _connect_t2, _connect_t3,
     H("verifH_C18_lockwrite", "requests in each connect phase: down => ErrDown, pending waits for the outcome, quit => ErrCanceled", reach=("down","pending-quit","pending-online","pending-down")),
   ],
   assumptions=_outasm+["dialer returns the harness connection or an error; TLS and real dialers are not encoded",
